@@ -32,7 +32,8 @@ def classify(d, text, answer):
     cls = c06.finding_class(d, [text.replace("\t", " ").replace("\r\n", "\n").replace("\u3000", " ")])
     if cls:
         return cls
-    up = text.upper()
+    # comments and blank runs of any kind between the words of an attribute do not matter
+    up = re.sub(r"[ \t\r\n\u3000]+", " ", re.sub(r"/\*.*?\*/|--[^\n]*|#[^\n]*", " ", text, flags=re.S)).upper()
     if up.lstrip().startswith(("CREATE", "ALTER")) and any(len(re.findall(r"\b" + k + r"\b", up)) >= 2 for k in ATTRS):
         return "repeated-attribute-overwritten"
     if re.search(r"gained=\[[^\]]*%28;", answer):
